@@ -368,17 +368,23 @@ func (ev *c38Events) drain() c38Observed {
 // ---------------------------------------------------------------------------
 // tx indexer quiescence (passive: inspects goroutine states, changes nothing)
 
+var c38StackBuf []byte
+
 // c38IndexerIdle reports whether no txIndexer.run goroutine exists and every
 // txIndexer.loop goroutine is parked in its select.
 func c38IndexerIdle() bool {
-	buf := make([]byte, 1<<20)
+	// the scratch buffer is reused between polls (only the test goroutine calls this)
+	if c38StackBuf == nil {
+		c38StackBuf = make([]byte, 1<<20)
+	}
+	var buf []byte
 	for {
-		n := runtime.Stack(buf, true)
-		if n < len(buf) {
-			buf = buf[:n]
+		n := runtime.Stack(c38StackBuf, true)
+		if n < len(c38StackBuf) {
+			buf = c38StackBuf[:n]
 			break
 		}
-		buf = make([]byte, 2*len(buf))
+		c38StackBuf = make([]byte, 2*len(c38StackBuf))
 	}
 	for _, g := range strings.Split(string(buf), "\n\n") {
 		if strings.Contains(g, "core.(*txIndexer).run") || strings.Contains(g, "rawdb.indexTransactions") ||
@@ -798,6 +804,9 @@ func (m *c38Machine) checkEvents(what string, old, cur []*c38Node, o c38Observed
 	}
 	if len(diff) > 0 {
 		sort.Strings(diff)
+		if len(diff) > 40 { // sides may carry thousands of logs
+			diff = append(diff[:40:40], fmt.Sprintf("  ... and %d more", len(diff)-40))
+		}
 		m.fatalf("%s: after applying the emitted log events in order, a subscriber's log set differs from the logs of the new canonical chain (dropped %s, added %s):\n%s",
 			what, m.names(dropped), m.names(added), strings.Join(diff, "\n"))
 	}
